@@ -78,11 +78,11 @@ def tla_set(xs):
     return "{" + ", ".join(json.dumps(x) if isinstance(x, str) else str(x) for x in xs) + "}"
 
 
-def consts(bs, low, high, nc, qids, kinds, ppslots, ppk, localmax, steps, snaps=(0, 1)):
-    return ("CONSTANT MAX = %d\nCONSTANT Snaps = %s\nCONSTANT Bs = %s\nCONSTANT LowT = %s\nCONSTANT HighT = %s\nCONSTANT NC = %d\n"
+def consts(bs, low, high, nc, qids, kinds, ppslots, ppk, localmax, steps, snaps=(0, 1), bqs=None):
+    return ("CONSTANT MAX = %d\nCONSTANT Snaps = %s\nCONSTANT Bs = %s\nCONSTANT BQs = %s\nCONSTANT LowT = %s\nCONSTANT HighT = %s\nCONSTANT NC = %d\n"
             "CONSTANT QIds = %s\nCONSTANT Kinds = %s\nCONSTANT PPSlots = %d\nCONSTANT PPK = %d\n"
             "CONSTANT LocalMax = %d\nCONSTANT MaxSteps = %d\n" % (
-                MAX, tla_set(snaps), tla_set(bs), tla_set(low), tla_set(high), nc, tla_set(qids), tla_set(kinds), ppslots, ppk, localmax, steps))
+                MAX, tla_set(snaps), tla_set(bs), tla_set(bqs if bqs is not None else [1]), tla_set(low), tla_set(high), nc, tla_set(qids), tla_set(kinds), ppslots, ppk, localmax, steps))
 
 
 BS = [1, 2, 3, 4]
@@ -130,7 +130,10 @@ def model_check(ctx, prop):
     desc = []
     th = 1 if ctx.thorough() else 0
     for (name, kinds, lows, high, nc, qids, pps, ppk, lmax, stepss, snaps) in mc_configs(prop):
-        c = consts(BS, lows[th], high, nc, qids, kinds, pps, ppk, lmax, stepss[th], snaps=snaps)
+        # query ring sizes matter only where queries are handled; there both rings vary independently
+        hasq = "qry" in kinds or "lq" in kinds
+        c = consts([1, 3] if hasq else BS, lows[th], high, nc, qids, kinds, pps, ppk, lmax, stepss[th], snaps=snaps,
+                   bqs=BS if hasq else [1])
         r = vlib.tlc(ctx, "SerfEvents", c + "INIT Init\nNEXT Next\nINVARIANT Props\n", timeout=3000)
         if r.violated:
             raise vlib.Inconclusive("the model violates its own monitors beyond the recorded finding (%s):\n%s"
@@ -157,12 +160,18 @@ def simulate(ctx, num, depth):
     return scheds
 
 
+def bb(b):
+    """buffer sizes of a schedule: an int (both rings) or a pair (EventBuffer, QueryBuffer)."""
+    return (b[0], b[1]) if isinstance(b, (list, tuple)) else (b, b)
+
+
 def execute(ctx, binary, scheds, tag):
     """scheds: list of (b, snap, steps); snap = 0 no snapshot, 1 snapshot, n >= 40: snapshot file pre-filled with comment
     lines up to n bytes below the compaction limit (the schedule's recorded clocks then cross it)."""
     sp = os.path.join(ctx.scratch, "sched-%s.ndjson" % tag)
     tp = os.path.join(ctx.scratch, "trace-%s.ndjson" % tag)
-    vlib.write_schedules(sp, [[{"a": "cfg", "b": b, "snap": min(sn, 1), "fill": sn if sn > 1 else 0}] + s for (b, sn, s) in scheds])
+    vlib.write_schedules(sp, [[{"a": "cfg", "b": bb(b)[0], "bq": bb(b)[1], "snap": min(sn, 1), "fill": sn if sn > 1 else 0}] + s
+                               for (b, sn, s) in scheds])
     rc, out = vlib.run_driver(ctx, binary, ["-mode", "seq", "-in", sp, "-out", tp, "-nc", str(NC),
                                             "-max", str(MAX), "-dir", ctx.sub("snap")], timeout=1800)
     if rc != 0:
@@ -221,6 +230,10 @@ def directed(mc_ce):
         [ev(3, 1), rs(0), jn(2, [{"lt": 1, "ks": [1]}], 1), ev(3, 1), ev(2, 2), mg(5, [], 1, 0), ev(4, 2)],
     ]
     out = [(b, 1, s) for s in ([x for x in mc_ce if x] + hand) for b in BS]
+    # unequal rings: times that differ by the size of the smaller ring, alternating duplicates (each window against its own ring)
+    for (be, bq) in ((1, 4), (2, 4), (4, 1), (3, 2), (2, 3)):
+        out.append(((be, bq), 1, [ev(1, 1), ev(1 + be, 1), ev(1, 1), ev(1 + be, 1), ev(1, 1), qry(1, 1), qry(1 + bq, 1), qry(1, 1), qry(1 + bq, 1)]))
+        out.append(((be, bq), 0, [ev(2, 1), ev(2 + bq, 2), ev(2, 1), qry(2, 1), qry(2 + be, 2), qry(2, 1), mg(5, [{"lt": 5 - be, "ks": [1]}], 0, 0)]))
     # snapshot compaction: the file is pre-filled to just below the limit, j increasing times are recorded (one of the
     # lines crosses the limit and triggers the compaction), graceful restart, the newest one arrives again
     ts = [1, 2, 3, 4, 5, 19, 20, 21, 22]
@@ -341,7 +354,7 @@ def run_seq(ctx, prop, replay=None):
     mc = None
     if replay:
         v = json.load(open(replay))
-        scheds = [(v.get("b", 2), v.get("snap", 1), v["schedule"])]
+        scheds = [(tuple(v["b"]) if isinstance(v.get("b"), list) else v.get("b", 2), v.get("snap", 1), v["schedule"])]
     else:
         mc = model_check(ctx, prop)
         num, depth = (1600, 40) if ctx.thorough() else (240, 30)
@@ -349,7 +362,7 @@ def run_seq(ctx, prop, replay=None):
         scheds = directed(mc[2])
         for s in simulate(ctx, num, depth):
             sn = 1 if any(st["a"] == "restart" for st in s) else rng.choice([0, 1])
-            scheds.append((rng.choice(BS), sn, s))
+            scheds.append(((rng.choice(BS), rng.choice(BS)), sn, s))      # event and query ring sizes drawn independently
     viol, rep = judge(ctx, binary, scheds, pre, "a")
     if rep.diverged:
         ctx.log("diverged at %s" % rep.diverged[:5])
